@@ -62,7 +62,7 @@ def scenarios(draw):
         calls.append(call)
     spec["calls"] = calls
     if any_timeout:
-        spec["timeout"] = draw(st.sampled_from([0.05, 0.1, 0.2]))
+        spec["timeout"] = draw(st.sampled_from([0.1, 0.2, 0.3]))
     spec["mode"] = "sched"
     return spec
 
@@ -125,7 +125,12 @@ def run_case(spec):
         foreign = [i for e in evs if e["kind"] == "submit" for i in e["indices"] if not (rec["base"] <= i < rec["base"] + 1000)]
         if foreign:
             raise Violation("%s submitted tasks %r left over from an earlier call" % (where, foreign[:10]), signature=["leftover"])
-        if not faulty:
+        if not faulty and raised and raised["type"] == "TimeoutError" and spec.get("timeout"):
+            # the constructor's timeout applies to every call: the driver itself was slower than the
+            # timeout in completing the awaited batch - the documented TimeoutError, not a violation
+            classes.append("harness-slower-than-timeout")
+            prev_failed, prev_pending = True, False
+        elif not faulty:
             if raised:
                 raise Violation("%s raised %r although nothing fails in it%s" % (where, raised, " (previous call failed)" if prev_failed else ""),
                                 signature=["clean-call-raises", prev_failed])
@@ -151,7 +156,7 @@ def run_case(spec):
                 prev_failed = False
             else:
                 ok = (raised["type"], raised["args"]) in execd_fail
-                if not ok and call.get("never") and raised["type"] == "TimeoutError":
+                if not ok and spec.get("timeout") and raised["type"] == "TimeoutError":
                     ok = True
                 if not ok:
                     raise Violation("%s raised %r, which is none of the exceptions raised by its tasks/iterator %r%s"
